@@ -28,12 +28,14 @@ def run(rep):
     rep.rule('R03.b', 'template rendered at two levels; recursion arguments')
     rep.rule('R03.c', 'request-core template parsed; CFG rules on it; environment roles')
     rep.rule('R03.d', 'sequence rules on the phase comprehensions and merge_middlewares')
-    chain.check_generated_level(rep, 'R03.a', 'R03.b', 'R03.a', 'R03.b', 'R03.b')
-    chain.check_make_chain(rep, 'R03.b', 'R03.b')
-    chain.check_request_core(rep, 'R03.c', rule_kw='R03.c')
-    chain.check_phase_sets(rep, 'R03.c', rule_pair='R03.d', rule_order='R03.d', rule_core_env='R03.c')
-    chain.check_merge_order(rep, 'R03.d')
-    rep.floor('R03.a', 3)
-    rep.floor('R03.b', 8)
-    rep.floor('R03.c', 12)
-    rep.floor('R03.d', 12)
+    g = rep.guard
+    g(chain.check_generated_level, rep, 'R03.a', 'R03.b', 'R03.a', 'R03.b', 'R03.b')
+    g(chain.check_make_chain, rep, 'R03.b', 'R03.b')
+    g(chain.check_request_core, rep, 'R03.c', rule_kw='R03.c')
+    g(chain.check_phase_sets, rep, 'R03.c', rule_pair='R03.d', rule_order='R03.d', rule_core_env='R03.c')
+    g(chain.check_merge_order, rep, 'R03.d')
+    if not rep.gaps:
+        rep.floor('R03.a', 3)
+        rep.floor('R03.b', 8)
+        rep.floor('R03.c', 12)
+        rep.floor('R03.d', 12)
